@@ -297,24 +297,18 @@ func (e *Env) Dump() ([]interface{}, error) {
 		if err != nil {
 			return nil, err
 		}
-		kind, num, rev, name := e.Keys.DecodeInternal(it.Key())
-		var kk interface{} = num
+		kind, num, rev, _ := e.Keys.DecodeInternal(it.Key())
 		if kind != "obj" {
-			kk = name
+			continue
 		}
-		out = append(out, []interface{}{kk, gate.Clip(rev), gate.ValRepr(kind, rev, it.Val())})
+		out = append(out, []interface{}{num, gate.Clip(rev), gate.ValRepr(kind, rev, it.Val())})
 	}
 	sort.SliceStable(out, func(i, j int) bool {
 		a, b := out[i].([]interface{}), out[j].([]interface{})
-		ai, aok := a[0].(int)
-		bi, bok := b[0].(int)
-		if aok && bok {
-			if ai != bi {
-				return ai < bi
-			}
-			return a[1].(int64) < b[1].(int64)
+		if a[0].(int) != b[0].(int) {
+			return a[0].(int) < b[0].(int)
 		}
-		return false
+		return a[1].(int64) < b[1].(int64)
 	})
 	return out, nil
 }
